@@ -120,6 +120,7 @@ fn driver(args: &[String]) -> i32 {
                 .arg(&out)
                 .env("VERIF_ROOT", &root)
                 .env("VERIF_PROFILE", tag)
+                .env("TZ", ["UTC", "Asia/Tokyo", "America/New_York", "Europe/Paris", "Pacific/Chatham"][(w % 5) as usize])
                 .spawn();
             match ch {
                 Ok(c) => children.push((c, out)),
